@@ -434,7 +434,14 @@ struct RegistryEngine : Engine
 				for (size_t oi = 0; oi < ops.size(); ++oi) {
 					if (depth == 1 && int(oi) != first) continue;
 					std::vector<int> hist = h; hist.push_back(int(oi));
-					if (!ctx.next_case()) continue;
+					if (!ctx.next_case()) {
+						// resuming after a dead child: cases that were already executed are not reported again, but the search frontier
+						// has to be rebuilt from them (all except the one that killed the child)
+						if (ctx.ordinal == ctx.r_ordinal) continue;
+						Sys s(variant);
+						if (build(s, hist) && s.fails.empty() && seen.insert(fnv(s.key())).second && depth < D) next.push_back(hist);
+						continue;
+					}
 					Case c; c.set("variant", variant).set_ints("hist", hist);
 					ctx.begin(c);
 					{
